@@ -45,6 +45,8 @@ def init_state(theory_name, thm):
     """Load the theory up to the theorem, set the context, build the initial proof state."""
     from logic import basic, context
     from server import server
+    if theory_name == '#goal':
+        return init_state_goal(int(thm))
     if theory_name not in _corpus:
         load_corpus([theory_name])
     it = get_item(theory_name, thm)
@@ -52,6 +54,46 @@ def init_state(theory_name, thm):
     context.set_context(None, vars=it.vars)
     state = server.parse_init_state(it.prop)
     return it, state
+
+
+class GoalItem:
+    """Stand-in for a library theorem item: a generated goal with no recorded steps."""
+    def __init__(self, vars, prop):
+        self.vars = vars
+        self.prop = prop
+        self.steps = []
+
+
+GOALS = [
+    ({'A': 'bool', 'B': 'bool'}, '((A --> A) --> B) --> B'),
+    ({'A': 'bool', 'B': 'bool'}, '(A --> A) & B --> B & (A --> A)'),
+    ({'A': 'bool', 'B': 'bool', 'C': 'bool'}, '(A --> B) --> (B --> C) --> A --> C'),
+    ({'A': 'bool', 'B': 'bool'}, 'A & B --> B & A'),
+    ({'A': 'bool', 'B': 'bool'}, 'A | B --> B | A'),
+    ({'A': 'bool', 'B': 'bool', 'C': 'bool'}, '(A | B) & C --> (A & C) | (B & C)'),
+    ({'A': 'bool'}, '~~A --> A'),
+    ({'P': "'a => bool", 'Q': "'a => bool"}, '(!x. P x --> Q x) --> (!x. P x) --> (!x. Q x)'),
+    ({'P': "'a => bool", 'Q': "'a => bool"}, '(?x. P x & Q x) --> (?x. P x) & (?x. Q x)'),
+    ({'P': "'a => bool", 'A': 'bool'}, '(!x::\'a. A) --> A'),
+    ({'P': "'a => bool", 'C': 'bool'}, '(?x. P x) --> (!x. P x --> C) --> C'),
+    ({'P': "'a => 'a => bool"}, '(?x. !y. P x y) --> (!y. ?x. P x y)'),
+    ({'A': 'bool', 'B': 'bool'}, '(A --> B) --> (~B --> ~A)'),
+    ({'A': 'bool', 'B': 'bool'}, 'A --> A --> B --> A & B'),
+]
+
+
+def init_state_goal(k):
+    """Initial state for the k-th generated goal, in theory logic."""
+    from logic import basic, context
+    from server import server
+    from syntax import parser
+    vars, text = GOALS[k % len(GOALS)]
+    basic.load_theory('logic')
+    context.set_context(None, vars=vars)
+    prop = parser.parse_term(text)
+    item = GoalItem(dict((nm, T) for nm, T in context.ctxt.vars.items()), prop)
+    state = server.parse_init_state(prop)
+    return item, state
 
 
 # ------------------------------------------------------------------ structure
